@@ -100,8 +100,10 @@ Decoder::SegmentedPacket::SegmentedPacket(
     , curMessageType(messageType)
     , curSegment(sequenceCounter)
 {
-    payload.resize(size);
-    memcpy(payload.data(), data, size);
+    // Keep the message header and the declared payload only, the frame may be longer (e.g. padding)
+    const size_t segmentSize = sizeof(MessageHeader) + reinterpret_cast<const MessageHeader*>(data)->getPayloadLength();
+    payload.resize(segmentSize < size ? segmentSize : size);
+    memcpy(payload.data(), data, payload.size());
 }
 
 bool Decoder::SegmentedPacket::addSegment(
